@@ -131,9 +131,18 @@ const maxPages = 200
 
 // walkObjects pages through ListObjects (V1 or V2) for one prefix/delimiter/max.
 func (w *walker) walkObjects(bucket string, live []wEntry, prefix, delim string, max int, v2 bool) {
+	w.walkObjectsSA(bucket, live, prefix, delim, max, v2, false)
+}
+
+// walkObjectsSA: with carrySA, every V2 request carries start-after= (empty: from the beginning) in
+// addition to the continuation token, as SDK paginators re-send their original parameters.
+func (w *walker) walkObjectsSA(bucket string, live []wEntry, prefix, delim string, max int, v2 bool, carrySA bool) {
 	style := "v1"
 	if v2 {
 		style = "v2"
+	}
+	if carrySA {
+		style = "v2+start-after"
 	}
 	w.emit(wEvent{T: "start", Kind: "objects", Exact: true, Pag: w.x.Sys.Paginates(), Max: max,
 		Prefix: fromBytes(prefix), Delim: fromBytes(delim), Live: live, Style: style})
@@ -142,6 +151,9 @@ func (w *walker) walkObjects(bucket string, live []wEntry, prefix, delim string,
 	for page := 0; page < maxPages; page++ {
 		op := Op{"op": "ListObjects", "b": bucket, "v2": v2, "prefix": fromBytes(prefix), "delim": fromBytes(delim), "max": float64(max)}
 		r := w.x.Build(op)
+		if carrySA {
+			r.Query.Set("start-after", "")
+		}
 		if hasMarker {
 			if v2 {
 				r.Query.Set("continuation-token", token)
@@ -503,6 +515,9 @@ func walkOne(cfg *RunCfg, sysName string, idx int, t *walkTour, kind string, max
 				for max := 1; max <= len(live)+maxExtra; max++ {
 					w.walkObjects(bucket, live, q.p, q.d, max, false)
 					w.walkObjects(bucket, live, q.p, q.d, max, true)
+					if max <= 2 {
+						w.walkObjectsSA(bucket, live, q.p, q.d, max, true, true)
+					}
 				}
 			}
 		}
